@@ -168,10 +168,11 @@ CLAIMED = {
        "Clear, shown necessary by splice_offsets_boundary); walk_render - the strict walker inverts rendering for all well-formed trees incl. "
        "64-bit sizes and the meta version field; parent_sizes - for any nested path, any siblings and any surrounding bytes, splice + parent "
        "size patching yields exactly the rendering of the tree with the new atoms in place; chunk_offsets_follow_partial - if the modelled "
-       "save finishes on ANY byte string with one moov, at most one moof and SaveSafe tables, every stco/co64 entry and tfhd base offset is "
-       "the patched old value and addresses the same media bytes. Partial: several moof, size-0 last atom, wide (64-bit header) tables and "
-       "ilst-first/free-last layouts are outside the theorem's hypotheses - they are exactly the recorded findings, stated as "
-       "counterexample theorems on the model and replayed on the real code on every run.",
+       "save finishes on ANY byte string with one moov (any number of moof fragments) and SaveSafe tables, every stco/co64 entry and tfhd base "
+       "offset is the patched old value and addresses the same media bytes. Partial: table atoms with a 64-bit size header are outside the "
+       "theorem's hypotheses (modelled and tied, no theorem). The four defects found (second moof, size-0 moov, ilst-first/free-last, wide "
+       "tables) were repaired in /repo; their witnesses are now positive instance theorems (two_moof_instance, size0_moov_instance, "
+       "ilst_first_instance) replayed on the real code on every run.",
   note="Trusted: Lean kernel; standard axioms; the hand-written model of mp4/__init__.py and mp4/_atom.py, compared byte for byte with the real "
        "save (including saves that raise midway) on every generated layout; _CONTAINERS/_SKIP_SIZE compared with the imported module on every run; "
        "the independent Python walker as oracle for sample files.",
